@@ -121,6 +121,10 @@ type cbSite struct {
 	call  *ast.CallExpr
 	block *cfg.Block
 	idx   int
+	// delegation: the callback is handed to a module function (or captured by a literal handed to an iterator)
+	deleg    bool
+	terminal bool   // the caller cannot tell from the call's value whether the consumer stopped
+	what     string // description of the delegate
 }
 
 type ydFunc struct {
@@ -128,7 +132,113 @@ type ydFunc struct {
 	cb     *types.Var
 	g      *cfg.CFG
 	sites  []*cbSite
-	escape []string // uses of cb other than as callee
+	delegs []*cbSite // calls that hand the callback on (see buildYD)
+	lits   []*ydFunc // literals that capture the callback and are handed to an iterator: disciplines of their own
+	escape []string  // uses of cb other than as callee or delegate
+}
+
+// ydDecls indexes the module's function declarations by their object (filled by allYD).
+var ydDecls = map[types.Object]*astFunc{}
+
+// siteStop: for a delegate call whose bool result tells whether the consumer stopped, the value(s) it has then.
+var siteStop = map[*ast.CallExpr]int{}
+
+// paramVar returns the i-th parameter variable of a declared function.
+func paramVar(f *astFunc, i int) *types.Var {
+	if f.typ.Params == nil {
+		return nil
+	}
+	k := 0
+	for _, fld := range f.typ.Params.List {
+		if len(fld.Names) == 0 {
+			k++
+			continue
+		}
+		for _, nm := range fld.Names {
+			if k == i {
+				v, _ := f.pkg.TypesInfo.Defs[nm].(*types.Var)
+				return v
+			}
+			k++
+		}
+	}
+	return nil
+}
+
+// soleBoolResult: the function type has exactly one result and it is bool.
+func soleBoolResult(f *astFunc) bool {
+	if f.typ.Results == nil || len(f.typ.Results.List) != 1 || len(f.typ.Results.List[0].Names) > 1 {
+		return false
+	}
+	t := f.pkg.TypesInfo.TypeOf(f.typ.Results.List[0].Type)
+	return t != nil && types.Identical(t, types.Typ[types.Bool])
+}
+
+// ydSummary: the values g's bool result can have on return after its callback cb returned false (bits mayT/mayF);
+// ok is false when that cannot be told (no sole bool result, the callback escapes, a bare return, depth).
+func ydSummary(g *astFunc, cb *types.Var, depth int) (int, bool) {
+	if depth > 3 || !soleBoolResult(g) {
+		return 0, false
+	}
+	y := buildYDd(g, cb, depth+1)
+	if len(y.escape) > 0 {
+		return 0, false
+	}
+	info := g.pkg.TypesInfo
+	constBool := func(ret *ast.ReturnStmt) int {
+		if len(ret.Results) == 1 {
+			if id, ok := ast.Unparen(ret.Results[0]).(*ast.Ident); ok {
+				if c, ok := info.Uses[id].(*types.Const); ok && c.Pkg() == nil {
+					if id.Name == "true" {
+						return mayT
+					}
+					if id.Name == "false" {
+						return mayF
+					}
+				}
+			}
+		}
+		return mayT | mayF
+	}
+	bits := 0
+	for _, s := range append(append([]*cbSite{}, y.sites...), y.delegs...) {
+		if s.terminal {
+			return 0, false
+		}
+		if ret, ok := s.block.Nodes[s.idx].(*ast.ReturnStmt); ok {
+			if len(ret.Results) != 1 {
+				return 0, false
+			}
+			o, has := condOutcomes(ret.Results[0], s.call)
+			if !has {
+				o = mayT | mayF
+			}
+			bits |= o
+			continue
+		}
+		succs, rest, _ := y.falsySuccs(s)
+		returned := false
+		if rest {
+			for _, nd := range s.block.Nodes[s.idx+1:] {
+				if ret, ok := nd.(*ast.ReturnStmt); ok {
+					bits |= constBool(ret)
+					returned = true
+					break
+				}
+			}
+		}
+		if returned {
+			continue
+		}
+		for b := range reachable(succs) {
+			for _, nd := range b.Nodes {
+				if ret, ok := nd.(*ast.ReturnStmt); ok {
+					bits |= constBool(ret)
+				}
+			}
+		}
+	}
+	return bits, true
 }
 
 // inspectNoLit walks n without descending into function literals.
@@ -141,20 +251,82 @@ func inspectNoLit(n ast.Node, fn func(ast.Node) bool) {
 	})
 }
 
-func buildYD(f *astFunc, cb *types.Var) *ydFunc {
+func buildYD(f *astFunc, cb *types.Var) *ydFunc { return buildYDd(f, cb, 0) }
+
+func buildYDd(f *astFunc, cb *types.Var, depth int) *ydFunc {
 	info := f.pkg.TypesInfo
 	y := &ydFunc{f: f, cb: cb, g: cfg.New(f.body, mayReturn(info))}
 	callee := map[*ast.Ident]bool{}
+	nLit := 0
 	for _, b := range y.g.Blocks {
 		if !b.Live {
 			continue
 		}
 		for i, nd := range b.Nodes {
 			inspectNoLit(nd, func(m ast.Node) bool {
-				if c, ok := m.(*ast.CallExpr); ok {
-					if id, ok := ast.Unparen(c.Fun).(*ast.Ident); ok && info.Uses[id] == cb {
-						y.sites = append(y.sites, &cbSite{c, b, i})
+				c, ok := m.(*ast.CallExpr)
+				if !ok {
+					return true
+				}
+				if id, ok := ast.Unparen(c.Fun).(*ast.Ident); ok && info.Uses[id] == cb {
+					y.sites = append(y.sites, &cbSite{call: c, block: b, idx: i})
+					callee[id] = true
+					return true
+				}
+				for ai, a := range c.Args {
+					// (1) the callback handed to a declared module function: g(..., cb, ...)
+					if id, ok := ast.Unparen(a).(*ast.Ident); ok && info.Uses[id] == cb {
+						fo, _ := typeutil.Callee(info, c).(*types.Func)
+						g := ydDecls[fo]
+						if fo == nil || g == nil || g == f {
+							continue
+						}
+						pv := paramVar(g, ai)
+						if pv == nil {
+							continue
+						}
+						s := &cbSite{call: c, block: b, idx: i, deleg: true, what: g.name}
+						bits, ok := ydSummary(g, pv, depth)
+						switch {
+						case ok && bits == 0:
+							// the callee never calls it on a path that returns: nothing to stop
+						case ok && (bits == mayT || bits == mayF):
+							siteStop[c] = bits
+						default:
+							s.terminal = true
+						}
+						if !(ok && bits == 0) {
+							y.delegs = append(y.delegs, s)
+						}
 						callee[id] = true
+					}
+					// (2) a literal that captures the callback, handed to an iterator (or any callee): seq(func(…) bool {…})
+					if lit, ok := ast.Unparen(a).(*ast.FuncLit); ok {
+						uses := false
+						ast.Inspect(lit.Body, func(x ast.Node) bool {
+							if id, ok := x.(*ast.Ident); ok && info.Uses[id] == cb {
+								uses = true
+							}
+							return !uses
+						})
+						if !uses {
+							continue
+						}
+						nLit++
+						lf := &astFunc{pkg: f.pkg, name: fmt.Sprintf("%s$lit%d", f.name, nLit), typ: lit.Type, body: lit.Body, node: lit, decl: f.decl}
+						bits, ok := ydSummary(lf, cb, depth)
+						if !ok || bits&mayT != 0 {
+							continue // not a loop-body literal that answers false once stopped: stays an escape
+						}
+						ly := buildYDd(lf, cb, depth+1)
+						y.lits = append(y.lits, ly)
+						y.delegs = append(y.delegs, &cbSite{call: c, block: b, idx: i, deleg: true, terminal: true, what: "iterator call with a literal that passes the stop on"})
+						ast.Inspect(lit.Body, func(x ast.Node) bool {
+							if id, ok := x.(*ast.Ident); ok && info.Uses[id] == cb {
+								callee[id] = true
+							}
+							return true
+						})
 					}
 				}
 				return true
@@ -185,6 +357,9 @@ func condOutcomes(e ast.Expr, target *ast.CallExpr) (int, bool) {
 		return condOutcomes(x.X, target)
 	case *ast.CallExpr:
 		if x == target {
+			if v, ok := siteStop[x]; ok {
+				return v, true
+			}
 			return mayF, true
 		}
 	case *ast.UnaryExpr:
@@ -284,6 +459,15 @@ func reachable(from []*cfg.Block) map[*cfg.Block]bool {
 
 // siteDesc renders a call site without positions: call#k yield(args)
 func (y *ydFunc) siteDesc(s *cbSite) string {
+	if s.deleg {
+		k := 0
+		for i, t := range y.delegs {
+			if t == s {
+				k = i + 1
+			}
+		}
+		return fmt.Sprintf("delegate#%d %s", k, s.what)
+	}
 	k := 0
 	for i, t := range y.sites {
 		if t == s {
@@ -302,15 +486,24 @@ func (y *ydFunc) ruleYD1(c *Ctx, r *Report, rule string) {
 	fset := y.f.pkg.Fset
 	sort.Slice(y.sites, func(i, j int) bool { return y.sites[i].call.Pos() < y.sites[j].call.Pos() })
 	siteIn := map[*cfg.Block][]*cbSite{}
-	for _, s := range y.sites {
+	all := append(append([]*cbSite{}, y.sites...), y.delegs...)
+	sort.Slice(all, func(i, j int) bool { return all[i].call.Pos() < all[j].call.Pos() })
+	for _, s := range all {
 		siteIn[s.block] = append(siteIn[s.block], s)
 	}
 	for _, e := range y.escape {
 		r.undecided(rule, y.f.name, "escape "+y.cb.Name(), e, "callback parameter is used other than as a callee (passed on, stored or captured); the discipline cannot be decided on this function alone")
 	}
-	for _, s := range y.sites {
+	for _, ly := range y.lits {
+		ly.ruleYD1(c, r, rule)
+	}
+	for _, s := range all {
 		r.CallSites++
 		succs, rest, kind := y.falsySuccs(s)
+		if s.terminal {
+			// whether the consumer stopped inside the delegate is not visible here: nothing may follow it
+			succs, rest, kind = s.block.Succs, true, "delegate"
+		}
 		var offender *cbSite
 		if rest {
 			for _, t := range siteIn[s.block] {
@@ -321,7 +514,7 @@ func (y *ydFunc) ruleYD1(c *Ctx, r *Report, rule string) {
 		}
 		// the result kept in a variable (`more = yield(x)`, then `for more && …`): follow only the successors that
 		// are possible while the variable still holds the value it got from a false result
-		if offender == nil && kind == "stmt" {
+		if offender == nil && kind == "stmt" && !s.terminal {
 			if obj, val, ok := y.resultVar(s); ok {
 				off, decided := y.reachWithFlag(s, obj, val, siteIn)
 				if decided {
@@ -360,9 +553,18 @@ func allYD(pkgs []*packages.Package) []*ydFunc {
 	var out []*ydFunc
 	for _, p := range pkgs {
 		for _, f := range astFuncs(p) {
+			if fd, ok := f.node.(*ast.FuncDecl); ok {
+				if o := p.TypesInfo.Defs[fd.Name]; o != nil {
+					ydDecls[o] = f
+				}
+			}
+		}
+	}
+	for _, p := range pkgs {
+		for _, f := range astFuncs(p) {
 			for _, cb := range boolCallbacks(f) {
 				y := buildYD(f, cb)
-				if len(y.sites) == 0 && len(y.escape) == 0 {
+				if len(y.sites) == 0 && len(y.escape) == 0 && len(y.delegs) == 0 {
 					continue
 				}
 				out = append(out, y)
